@@ -8,6 +8,7 @@ package main
 import (
 	"fmt"
 	"go/token"
+	"go/types"
 	"math/big"
 	"regexp"
 	"strings"
@@ -42,6 +43,9 @@ func eventsOf(ev *Evaluator, sub string) []Event {
 	}
 	return out
 }
+
+// reFieldCol: global:table[<i>].field
+var reFieldCol = regexp.MustCompile(`^(?:global:)?(\w+)\[.*\]\.(\w+)$`)
 
 // rePrimRow: global:table[<cfg>][<j>][k] - the k-th point index of the j-th primitive of a row
 var rePrimRow = regexp.MustCompile(`^((?:global:)?\w+)\[.*\]\[(\d+)\]$`)
@@ -251,6 +255,32 @@ func analyseKernel(ctx *Ctx, fn *ssa.Function, nverts int, interp string) (*kern
 		case strings.HasSuffix(k, "[1]"):
 			return 1
 		}
+		// a table of small structs: the column is the field's position
+		if m := reFieldCol.FindStringSubmatch(k); m != nil {
+			for _, pkg := range ctx.Pkgs {
+				if pkg.Types == nil || fn.Pkg == nil || pkg.Types != fn.Pkg.Pkg {
+					continue
+				}
+				if v, ok := pkg.Types.Scope().Lookup(m[1]).(*types.Var); ok {
+					var et types.Type
+					switch u := v.Type().Underlying().(type) {
+					case *types.Array:
+						et = u.Elem()
+					case *types.Slice:
+						et = u.Elem()
+					}
+					if et != nil {
+						if st, ok := et.Underlying().(*types.Struct); ok {
+							for i := 0; i < st.NumFields(); i++ {
+								if st.Field(i).Name() == m[2] {
+									return i
+								}
+							}
+						}
+					}
+				}
+			}
+		}
 		return -1
 	}
 	kf.interpA, kf.interpB = col(p1), col(p2)
@@ -363,6 +393,16 @@ func uniformCorners(ctx *Ctx, fn *ssa.Function, kernel string, dim int, getName 
 	}
 	// values: Get(l, a, y+b, z+c) / get(l, a, y+b)
 	var v0 []*Term
+	if t0, _ := values.Elems[0].(*Term); t0 != nil && t0.Op == "sel" {
+		// the values are read straight from the two layer slices: layer field -> x offset, index
+		// difference to value 0 -> (y, z) offsets, the stride being the difference that is not 0/1
+		bits, err := layerValueOffsets(ctx, fn, values, dim)
+		if err != nil {
+			return nil, err
+		}
+		cm.valBits = bits
+		return cm, nil
+	}
 	for k := 0; k < n; k++ {
 		t, _ := values.Elems[k].(*Term)
 		if t == nil || t.Op != "call" || !strings.HasSuffix(t.S, "."+getName) {
@@ -480,4 +520,178 @@ func validBits(b [][]int, dim int) bool {
 		seen[s] = true
 	}
 	return len(b) == 1<<dim
+}
+
+// ---------------------------------------------------------------- shared by C05 / C08
+
+// equalsAtZeroTolerance: the degenerate filter calls Equals(b, 0): identical vectors must compare
+// equal at tolerance 0 (a strict `<` makes the filter a no-op and collapsed primitives are emitted).
+// Decided on the closed form of Equals with b := a, tolerance := 0.
+func equalsAtZeroTolerance(ctx *Ctx, r *Report, rule, vecPkg string) {
+	fn := ctx.ssaFunc("vec/"+vecPkg, "(Vec).Equals")
+	key := vecPkg + ".Vec.Equals|identical-vectors-are-equal-at-tolerance-0"
+	if fn == nil {
+		r.undecided(rule, key, 0, "method not found")
+		return
+	}
+	ev := newEval(ctx)
+	res, _ := ev.evalRoot(fn)
+	t, _ := res.(*Term)
+	if t == nil || ev.Exceeded {
+		r.undecided(rule, key, fn.Pos(), "result is not a closed form")
+		return
+	}
+	a, b, tol := paramName(fn, 0), paramName(fn, 1), paramName(fn, 2)
+	env := map[string]*big.Rat{tol: new(big.Rat)}
+	for i, c := range []string{"X", "Y", "Z"} {
+		v := big.NewRat(int64(3*i+1), 7)
+		env[a+"."+c] = v
+		env[b+"."+c] = v
+	}
+	ok, why := false, ""
+	func() {
+		defer func() {
+			if e := recover(); e != nil {
+				why = fmt.Sprint(e)
+			}
+		}()
+		ok = evalT(t, env).Sign() != 0
+	}()
+	if why != "" {
+		r.undecided(rule, key, fn.Pos(), "not a comparison of the components: "+why)
+		return
+	}
+	r.check(rule, key, fn.Pos(), ok, "Equals(a, a, 0) must hold: the degenerate-primitive filter compares with tolerance 0; closed form: "+shortKey(t.Key(), 160))
+}
+
+// freshPrimitivePerIteration: the kernel appends a pointer to the primitive it has just filled;
+// the primitive must be allocated in the iteration that appends it. One variable declared before
+// the loop makes every appended pointer the same object: all emitted primitives equal the last.
+func freshPrimitivePerIteration(ctx *Ctx, r *Report, rule string, fn *ssa.Function, prim string) {
+	loops := loopDescs(fn, topoAll(fn))
+	n := 0
+	allInstrs(fn, func(b *ssa.BasicBlock, ins ssa.Instruction) {
+		st, ok := ins.(*ssa.Store)
+		if !ok {
+			return
+		}
+		al, ok := st.Val.(*ssa.Alloc)
+		if !ok || !al.Heap || !namedTypeIs(al.Type(), "/sdf", prim) {
+			return
+		}
+		// stored into the variadic slot of an append (or any slice/array element)
+		if _, ok := st.Addr.(*ssa.IndexAddr); !ok {
+			return
+		}
+		n++
+		// innermost loop around the store
+		var inner *loopDesc
+		for _, ld := range loops {
+			if ld.in[b] && (inner == nil || len(ld.order) < len(inner.order)) {
+				inner = ld
+			}
+		}
+		ok = inner == nil || inner.in[al.Block()]
+		r.check(rule, fmt.Sprintf("%s|emitted-primitive#%d-is-allocated-in-its-iteration", fn.Name(), n), st.Pos(), ok, "the pointer appended in a loop must point to a primitive allocated in that iteration, not to one variable shared by all iterations")
+	})
+	if n == 0 {
+		r.undecided(rule, fn.Name()+"|emitted-primitive", fn.Pos(), "no pointer to a freshly allocated *"+prim+" is emitted: idiom not recognised")
+	}
+}
+
+// layerValueOffsets decodes values written as cache.layerA[i] / cache.layerB[i]: which of the two
+// layer slices is the newer one (x offset 1) is read from the cache's fill method - the slice it
+// (re)allocates and fills; the index differences to value 0 are 0, 1, S, S+1 for a row stride S.
+func layerValueOffsets(ctx *Ctx, fn *ssa.Function, values *Agg, dim int) ([][]int, error) {
+	field := func(t *Term) string {
+		if i := strings.LastIndex(t.S, "."); i >= 0 {
+			return t.S[i+1:]
+		}
+		return t.S
+	}
+	// the newer layer: the field a method of the same package stores a fresh slice into
+	newer := ""
+	fields := map[string]bool{}
+	for _, e := range values.Elems {
+		if t, ok := e.(*Term); ok && t.Op == "sel" {
+			fields[field(t)] = true
+		}
+	}
+	pkgSuffix := "render"
+	for _, m := range ctx.srcFuncs(pkgSuffix) {
+		if m.Signature.Recv() == nil {
+			continue
+		}
+		allInstrs(m, func(b *ssa.BasicBlock, ins ssa.Instruction) {
+			st, ok := ins.(*ssa.Store)
+			if !ok {
+				return
+			}
+			if _, isMS := st.Val.(*ssa.MakeSlice); !isMS {
+				return
+			}
+			if fa, ok := st.Addr.(*ssa.FieldAddr); ok {
+				if sty, ok := fa.X.Type().Underlying().(*types.Pointer).Elem().Underlying().(*types.Struct); ok {
+					if nm := sty.Field(fa.Field).Name(); fields[nm] {
+						newer = nm
+					}
+				}
+			}
+		})
+	}
+	if len(fields) != 2 || newer == "" {
+		return nil, fmt.Errorf("the %d values are not read from two layer slices of which one is refilled per step", len(values.Elems))
+	}
+	t0 := values.Elems[0].(*Term)
+	var diffs []*Term
+	for _, e := range values.Elems {
+		t, ok := e.(*Term)
+		if !ok || t.Op != "sel" || len(t.Args) != 1 {
+			return nil, fmt.Errorf("value is not an element of a layer slice: %s", valKey(e))
+		}
+		diffs = append(diffs, Sub(t.Args[0], t0.Args[0]))
+	}
+	// the stride
+	var stride *Term
+	for _, d := range diffs {
+		if !d.IsZero() && !d.IsOne() {
+			for _, d2 := range diffs {
+				if equalRat(d2, Add(d, K(1))) {
+					stride = d
+				}
+			}
+		}
+	}
+	var out [][]int
+	for k, e := range values.Elems {
+		t := e.(*Term)
+		x := 0
+		if field(t) == newer {
+			x = 1
+		}
+		d := diffs[k]
+		var yz []int
+		switch {
+		case d.IsZero():
+			yz = []int{0, 0}
+		case d.IsOne():
+			yz = []int{0, 1}
+		case stride != nil && equalRat(d, stride):
+			yz = []int{1, 0}
+		case stride != nil && equalRat(d, Add(stride, K(1))):
+			yz = []int{1, 1}
+		default:
+			return nil, fmt.Errorf("value %d: index offset %s is not 0, 1, stride or stride+1", k, shortKey(d.Key(), 80))
+		}
+		if dim == 2 {
+			// one row: the only offsets are 0 and 1 (along y)
+			if yz[0] != 0 {
+				return nil, fmt.Errorf("value %d: unexpected row offset in a 2D cache", k)
+			}
+			out = append(out, []int{x, yz[1]})
+		} else {
+			out = append(out, append([]int{x}, yz...))
+		}
+	}
+	return out, nil
 }
